@@ -52,6 +52,8 @@ var fns = []Fn{
 	{"testParam", "func testParam(x uint64) bool {\n\treturn x == 0\n}\n", "testParam"},
 	{"testGeneric", "func testGeneric[T comparable](a T, b T) bool {\n\treturn a == b\n}\n", ""}, // cannot be called without instantiation: not a test
 	{"testOtherResult", "func testOtherResult() uint64 {\n\treturn 1\n}\n", "testOtherResult"},
+	{"testLatest", "func testLatestValue() bool {\n\treturn true\n}\n", "testLatestValue"},
+	{"failing_testRetest", "func failing_testRetestfailing_test() bool {\n\treturn false\n}\n", "failing_testRetestfailing_test"},
 	{"testLong", "func testWith2Words() bool {\n\treturn helper2()\n}\n\nfunc helper2() bool {\n\treturn true\n}\n", "testWith2Words"},
 }
 
@@ -314,6 +316,27 @@ func runDir(bin, root string, d Dir) result {
 	if p != "" {
 		return result{kind: "crash", msg: p}
 	}
+	// the -out flag: same text, in a file, whatever the file held before
+	for _, mode := range []string{"-coq", "-go"} {
+		of := filepath.Join(root, filepath.Base(dir)+mode+".out")
+		want := coqOut
+		if mode == "-go" {
+			want = goOut
+		}
+		os.WriteFile(of, []byte(want+"\n(* stale tail of a longer, older file *)\nfunc testStale() bool {\n"), 0644)
+		var errb bytes.Buffer
+		cmd := exec.Command(bin, mode, "-out", of, dir)
+		cmd.Stderr = &errb
+		err := cmd.Run()
+		got, _ := os.ReadFile(of)
+		os.Remove(of)
+		if err != nil {
+			return result{kind: "crash", msg: fmt.Sprintf("test_gen %s -out failed: %v %s", mode, err, errb.String())}
+		}
+		if string(got) != want {
+			return result{kind: "out-file-differs(" + mode + ")", msg: fmt.Sprintf("test_gen %s -out <existing longer file>: the file holds %d bytes that differ from what the same command prints to standard output (%d bytes); first difference at byte %d", mode, len(got), len(want), firstDiff(string(got), want))}
+		}
+	}
 	coqTs, p := parseCoq(coqOut)
 	if p != "" {
 		return result{kind: "coq-malformed", msg: p}
@@ -347,6 +370,14 @@ func runDir(bin, root string, d Dir) result {
 		}
 	}
 	return res
+}
+
+func firstDiff(a, b string) int {
+	i := 0
+	for i < len(a) && i < len(b) && a[i] == b[i] {
+		i++
+	}
+	return i
 }
 
 func seqs(maxLen int) [][]int {
@@ -578,7 +609,7 @@ func main() {
 	os.RemoveAll(root)
 	os.Exit(acc.Done(ev.Finish{
 		Prop: "C18", Tier: *tier, Level: "exploration", Start: start,
-		Rule:        "all package directories with a.go holding every sequence of <=2 (thorough <=3) distinct items of a 20-item function-header alphabet (functions named test… with a parameter, type parameters, another result type, plain, failing_, disabled_, helper, method, digit suffix, capital T, underscore and non-ASCII suffix, failing_ twin of a plain test, failing_ and test as infixes, column-0 and indented decoys inside a block comment and a raw string, multi-word), the first file also under 6 names that share a prefix or suffix with filtered names (latest.go, a.gold.go, gold.v.go, test_util.go, a_testing.go, a~b.go, Zeta.go, B.go, _a.go, 0.go), directories under parents named w[1], a*b, q?x, 'sp ace', {a,b}, back\\slash; optionally b.go with <=1 (thorough <=2) further items, x one extra entry {none, x_test.go, x.gold.v, x.go~, sub-directory, README.md, zz.txt} each holding a decoy header, or a .go file that is a symbolic link to a file elsewhere (a real source file of the package); the real test_gen binary run in -coq and -go mode; reference = go/parser over the non-test .go files in name order; oracles: Coq list == Go list == reference (order and Fail marking), method names unique, distinct generated Go files compiled against their package with go vet; evaluations = test_gen runs; non-trivial = directory with at least one test function",
+		Rule:        "all package directories with a.go holding every sequence of <=2 (thorough <=3) distinct items of a 22-item function-header alphabet (names containing 'test' / 'failing_test' a second time, functions named test… with a parameter, type parameters, another result type, plain, failing_, disabled_, helper, method, digit suffix, capital T, underscore and non-ASCII suffix, failing_ twin of a plain test, failing_ and test as infixes, column-0 and indented decoys inside a block comment and a raw string, multi-word), the first file also under 6 names that share a prefix or suffix with filtered names (latest.go, a.gold.go, gold.v.go, test_util.go, a_testing.go, a~b.go, Zeta.go, B.go, _a.go, 0.go), directories under parents named w[1], a*b, q?x, 'sp ace', {a,b}, back\\slash; optionally b.go with <=1 (thorough <=2) further items, x one extra entry {none, x_test.go, x.gold.v, x.go~, sub-directory, README.md, zz.txt} each holding a decoy header, or a .go file that is a symbolic link to a file elsewhere (a real source file of the package); the real test_gen binary run in -coq and -go mode, to standard output and with -out into an existing longer file (same bytes); reference = go/parser over the non-test .go files in name order; oracles: Coq list == Go list == reference (order and Fail marking), method names unique, distinct generated Go files compiled against their package with go vet; evaluations = test_gen runs; non-trivial = directory with at least one test function",
 		Assumptions: []string{"a semantics package is gofmt-formatted and its test…/failing_test… functions have signature func() bool", "functions named exactly `test` are outside the alphabet"},
 		Extra:       map[string]any{"distinct_nontrivial": len(acc.Sets["nontrivial"])},
 	}))
